@@ -270,14 +270,18 @@ def md5(b):
 
 # ---------------------------------------------------------------- evidence / verdicts
 def write_evidence(pid, tier, seed, coverage, wall, violations, assumptions):
-    os.makedirs(os.path.join(ROOT, "evidence"), exist_ok=True)
+    # evidence/<id>.json describes runs against /repo itself; a run pointed at another copy of lz4 (VERIF_REPO, used to
+    # try seeded breaking changes) or restricted to some case kinds (VERIF_KINDS, development aid) must not overwrite it
+    scratch = os.path.realpath(REPO) != "/repo" or bool(os.environ.get("VERIF_KINDS")) or "--replay" in sys.argv
+    evdir = os.path.join(BUILD, "evidence_scratch") if scratch else os.path.join(ROOT, "evidence")
+    os.makedirs(evdir, exist_ok=True)
     ev = {"property_id": pid, "tier": tier, "seed": seed, "level": "proof",
           "coverage": coverage, "assumptions": assumptions, "wall_s": round(wall, 2),
           "violations": violations}
-    tmp = os.path.join(ROOT, "evidence", pid + ".json.tmp")
+    tmp = os.path.join(evdir, pid + ".json.tmp")
     with open(tmp, "w") as f:
         json.dump(ev, f, indent=1, sort_keys=True)
-    os.rename(tmp, os.path.join(ROOT, "evidence", pid + ".json"))
+    os.rename(tmp, os.path.join(evdir, pid + ".json"))
 
 def write_replay(pid, obj):
     os.makedirs(os.path.join(ROOT, "replays"), exist_ok=True)
